@@ -26,6 +26,7 @@ import (
 	"github.com/jackc/pgx/v5/pgtype"
 
 	"github.com/cossacklabs/acra/decryptor/base"
+	encryptor "github.com/cossacklabs/acra/encryptor/base"
 	"github.com/cossacklabs/acra/encryptor/base/config"
 	"github.com/cossacklabs/acra/encryptor/base/config/common"
 	"github.com/cossacklabs/acra/encryptor/postgresql"
@@ -178,6 +179,8 @@ type PgPreparedStatement struct {
 	name string
 	text string
 	stmt *pg_query.ParseResult
+	// settings of statement's result columns recognized on Parse, used on every later Bind of the statement
+	queryDataItems []*encryptor.QueryDataItem
 
 	cursors map[string]Cursor
 }
@@ -190,6 +193,16 @@ func NewPreparedStatement(name string, text string, stmt *pg_query.ParseResult) 
 		stmt:    stmt,
 		cursors: make(map[string]Cursor),
 	}
+}
+
+// SetQueryDataItems remembers settings of the statement's result columns.
+func (s *PgPreparedStatement) SetQueryDataItems(items []*encryptor.QueryDataItem) {
+	s.queryDataItems = items
+}
+
+// QueryDataItems returns settings of the statement's result columns recognized on Parse.
+func (s *PgPreparedStatement) QueryDataItems() []*encryptor.QueryDataItem {
+	return s.queryDataItems
 }
 
 // Name returns the name of the prepared statement.
